@@ -29,6 +29,15 @@ NESTED = {
     'nettraffic21': {'type': 'network-traffic', 'spec_version': '2.1', 'protocols': ['tcp', 'http'], 'src_ref': C.REF_IPV4,
                      'extensions': {'http-request-ext': {'request_method': 'get', 'request_value': '/download.html',
                                                          'request_header': {'Accept-Encoding': 'gzip,deflate', 'Host': 'www.example.com'}}}},
+    'file21_lower': {'type': 'file', 'spec_version': '2.1', 'name': 'bar.exe', 'hashes': {'sha256': HASH_SHA256, 'md5': HASH_MD5},
+                     'extensions': {'archive-ext': {'contains_refs': [C.REF_FILE], 'comment': 'c'}}},
+    'artifact21': {'type': 'artifact', 'spec_version': '2.1', 'mime_type': 'image/jpeg', 'url': 'https://example.com/a.jpg',
+                   'hashes': {'sha-256': HASH_SHA256}},
+    'extref21': {'type': 'identity', 'spec_version': '2.1', 'name': 'with refs',
+                 'external_references': [{'source_name': 'src', 'url': 'https://example.com/x', 'hashes': {'sha256': HASH_SHA256, 'MD5': HASH_MD5}},
+                                         {'source_name': 'capec', 'external_id': 'CAPEC-1'}]},
+    'extref20': {'type': 'identity', 'name': 'with refs', 'identity_class': 'individual',
+                 'external_references': [{'source_name': 'src', 'url': 'https://example.com/x', 'hashes': {'md5': HASH_MD5}}]},
     'regkey21': {'type': 'windows-registry-key', 'spec_version': '2.1', 'key': 'HKEY_LOCAL_MACHINE\\System\\Foo',
                  'values': [{'name': 'Foo', 'data': 'qwerty', 'data_type': 'REG_SZ'}, {'name': 'Bar', 'data': '42', 'data_type': 'REG_DWORD'}]},
     'email21': {'type': 'email-message', 'spec_version': '2.1', 'is_multipart': True, 'subject': 'hi',
@@ -200,7 +209,7 @@ class C13(Profile):
         if op.get('nested'):
             d = C._copy(NESTED[op['nested']])
             if 'id' not in d and d['type'] not in ('file', 'network-traffic', 'windows-registry-key', 'email-message', 'process') \
-                    or d['type'] in ('observed-data', 'language-content', 'x-unreg-thing'):
+                    or d['type'] in ('observed-data', 'language-content', 'x-unreg-thing', 'identity'):
                 d['id'] = C.mkid(d['type'], op['n'])
                 d['created'] = d['modified'] = '2017-01-01T00:00:00.000Z'
             if 'extensions' in d:
